@@ -108,4 +108,13 @@ PROPS = {
         "assumptions": ["RocksDB iteration order = bytewise key order; snapshot isolation trusted", "matching = the stored key starts with the search prefix (as ckb-indexer)"],
         "trusted_base": ["modelled: build_query_options, build_filter_options, get_cells, get_transactions (grouped and ungrouped), get_cells_capacity; key layout read from the dump"],
     },
+    "C07": {
+        "ops": [("c07", "RunC07", {"quick": 150, "thorough": 3000})],
+        "rule": "worlds with outbound capacity 1..7 (quorum 1..4), 1..capacity peers (proved with probability 0.9), honest vectors and vectors deviating at one index "
+                "or from one index on, delivered as BlockFilterCheckPoints messages of length 0,1,2..6 with aligned / shifted / stale / unaligned start numbers in "
+                "random order through FilterProtocol::received, interleaved with refresh ticks (finalization) over 1..4 rounds; each message and each tick is one "
+                "case compared with Model/CheckPoints.v; oracles: quorum for every finalized value, final values never rewritten, index monotone, contradicting peers banned",
+        "assumptions": ["HashMap iteration order: the finalized values are an input of the model, which checks that they are among the outcomes the code allows"],
+        "trusted_base": ["modelled: CheckPoints::add_check_points, finalize_check_points (cleaning, length_max, per-index vote, retain, write)"],
+    },
 }
